@@ -226,3 +226,115 @@ package syntax
 //@   loop 1 invariant 0 <= self.pos && self.pos <= len(self.src) && self.src == old(self.src)
 //@   loop 1 decreases len(self.src) - self.pos
 //@   loop 2 invariant 0 <= iter && 0 <= self.pos && self.pos <= len(self.src) && self.src == old(self.src)
+
+// ---------------------------------------------------------------- C07 / C17 assignability tables
+//
+// Each implementation of Type.IsAssignableFrom returns nil exactly on the
+// documented conversion table: null to anything, reflexive, int -> float,
+// string -> file|path, user file type -> file|string, struct|typed map -> map,
+// arrays and typed maps structurally.
+
+//@ iface syntax.Type.IsAssignableFrom property C07 C17
+//@   pure
+//@   opt deterministic on
+
+//@ func syntax.ErrorList.If property C07 C17
+//@   trusted
+//@   pure
+//@   ensures len(errList) == 0 ==> isnil(result)
+//@   ensures len(errList) > 0 && (forall j :: 0 <= j && j < len(errList) ==> !isnil(errList[j]) && istype(errList[j], ptr_syntax.IncompatibleTypeError)) ==> !isnil(result)
+
+//@ func syntax.BuiltinType.IsAssignableFrom property C07 C17
+//@   ensures @null istype(other, ptr_syntax.nullType) ==> isnil(result)
+//@   ensures @builtin istype(other, ptr_syntax.BuiltinType) ==> (isnil(result) <==> (as(other, ptr_syntax.BuiltinType).Id == s.Id || (as(other, ptr_syntax.BuiltinType).Id == KindString && (s.Id == KindFile || s.Id == KindPath)) || (as(other, ptr_syntax.BuiltinType).Id == KindInt && s.Id == KindFloat)))
+//@   ensures @user istype(other, ptr_syntax.UserType) ==> (isnil(result) <==> (s.Id == KindFile || s.Id == KindString))
+//@   ensures @struct istype(other, ptr_syntax.StructType) ==> (isnil(result) <==> s.Id == KindMap)
+//@   ensures @typedmap istype(other, ptr_syntax.TypedMapType) ==> (isnil(result) <==> s.Id == KindMap)
+//@   ensures @array istype(other, ptr_syntax.ArrayType) ==> !isnil(result)
+//@   ensures @other !istype(other, ptr_syntax.nullType) && !istype(other, ptr_syntax.BuiltinType) && !istype(other, ptr_syntax.UserType) && !istype(other, ptr_syntax.StructType) && !istype(other, ptr_syntax.TypedMapType) && !istype(other, ptr_syntax.ArrayType) ==> !isnil(result)
+
+//@ func syntax.UserType.IsAssignableFrom property C07 C17
+//@   ensures @reflexive istype(other, ptr_syntax.UserType) && as(other, ptr_syntax.UserType) == s ==> isnil(result)
+//@   ensures @null istype(other, ptr_syntax.nullType) ==> isnil(result)
+//@   ensures @builtin istype(other, ptr_syntax.BuiltinType) ==> (isnil(result) <==> (as(other, ptr_syntax.BuiltinType).Id == KindFile || as(other, ptr_syntax.BuiltinType).Id == KindString))
+//@   ensures @user istype(other, ptr_syntax.UserType) ==> (isnil(result) <==> as(other, ptr_syntax.UserType).Id == s.Id)
+//@   ensures @collections istype(other, ptr_syntax.ArrayType) || istype(other, ptr_syntax.TypedMapType) || istype(other, ptr_syntax.StructType) ==> !isnil(result)
+
+//@ func syntax.ArrayType.IsAssignableFrom property C07 C17
+//@   ensures @reflexive istype(other, ptr_syntax.ArrayType) && as(other, ptr_syntax.ArrayType) == s ==> isnil(result)
+//@   ensures @null istype(other, ptr_syntax.nullType) ==> isnil(result)
+//@   ensures @array istype(other, ptr_syntax.ArrayType) && as(other, ptr_syntax.ArrayType) != s ==> (isnil(result) <==> (isnil(fn(syntax.Type.IsAssignableFrom, s.Elem, as(other, ptr_syntax.ArrayType).Elem, lookup)) && as(other, ptr_syntax.ArrayType).Dim == s.Dim))
+//@   ensures @other !istype(other, ptr_syntax.nullType) && !istype(other, ptr_syntax.ArrayType) ==> !isnil(result)
+
+//@ func syntax.TypedMapType.IsAssignableFrom property C07 C17
+//@   ensures @reflexive istype(other, ptr_syntax.TypedMapType) && as(other, ptr_syntax.TypedMapType) == s ==> isnil(result)
+//@   ensures @null istype(other, ptr_syntax.nullType) ==> isnil(result)
+//@   ensures @typedmap istype(other, ptr_syntax.TypedMapType) && as(other, ptr_syntax.TypedMapType) != s ==> (isnil(result) <==> isnil(fn(syntax.Type.IsAssignableFrom, s.Elem, as(other, ptr_syntax.TypedMapType).Elem, lookup)))
+//@   ensures @other !istype(other, ptr_syntax.nullType) && !istype(other, ptr_syntax.TypedMapType) && !istype(other, ptr_syntax.StructType) ==> !isnil(result)
+//@   ensures @struct istype(other, ptr_syntax.StructType) ==> (isnil(result) <==> (forall j :: 0 <= j && j < len(as(other, ptr_syntax.StructType).Members) ==> isnil(fn(syntax.Type.IsAssignableFrom, s.Elem, fn(syntax.TypeLookup.Get, lookup, as(other, ptr_syntax.StructType).Members[j].Tname), lookup))))
+//@   loop 1 invariant 0 <= iter && iter <= len(other.Members)
+//@   loop 1 invariant forall i :: 0 <= i && i < len(errs) ==> !isnil(errs[i]) && istype(errs[i], ptr_syntax.IncompatibleTypeError)
+//@   loop 1 invariant len(errs) == 0 <==> (forall j :: 0 <= j && j < iter ==> isnil(fn(syntax.Type.IsAssignableFrom, s.Elem, fn(syntax.TypeLookup.Get, lookup, other.Members[j].Tname), lookup)))
+
+//@ func syntax.TypeLookup.Get property C07 C17
+//@   trusted
+//@   pure
+//@   opt deterministic on
+
+//@ func syntax.StructType.getMember property C07 C17
+//@   trusted
+//@   pure
+//@   opt deterministic on
+
+// struct S <- struct T iff every member of S exists in T with equal array/map dims and an assignable type (extra members of T are allowed).
+//@ func syntax.StructType.IsAssignableFrom property C07 C17
+//@   ensures @reflexive istype(other, ptr_syntax.StructType) && as(other, ptr_syntax.StructType) == s ==> isnil(result)
+//@   ensures @null istype(other, ptr_syntax.nullType) ==> isnil(result)
+//@   ensures @other !istype(other, ptr_syntax.nullType) && !istype(other, ptr_syntax.StructType) ==> !isnil(result)
+//@   ensures @struct istype(other, ptr_syntax.StructType) && as(other, ptr_syntax.StructType) != s ==> (isnil(result) <==> (forall j :: 0 <= j && j < len(s.Members) ==> fn(syntax.StructType.getMember, as(other, ptr_syntax.StructType), s.Members[j].Id) != nil && s.Members[j].Tname.ArrayDim == fn(syntax.StructType.getMember, as(other, ptr_syntax.StructType), s.Members[j].Id).Tname.ArrayDim && s.Members[j].Tname.MapDim == fn(syntax.StructType.getMember, as(other, ptr_syntax.StructType), s.Members[j].Id).Tname.MapDim && (s.Members[j].Tname == fn(syntax.StructType.getMember, as(other, ptr_syntax.StructType), s.Members[j].Id).Tname || isnil(fn(syntax.Type.IsAssignableFrom, fn(syntax.TypeLookup.Get, typeTable, s.Members[j].Tname), fn(syntax.TypeLookup.Get, typeTable, fn(syntax.StructType.getMember, as(other, ptr_syntax.StructType), s.Members[j].Id).Tname), typeTable)))))
+//@   loop 1 invariant 0 <= iter && iter <= len(s.Members)
+//@   loop 1 invariant forall i :: 0 <= i && i < len(errs) ==> !isnil(errs[i]) && istype(errs[i], ptr_syntax.IncompatibleTypeError)
+//@   loop 1 invariant len(errs) == 0 <==> (forall j :: 0 <= j && j < iter ==> fn(syntax.StructType.getMember, t, s.Members[j].Id) != nil && s.Members[j].Tname.ArrayDim == fn(syntax.StructType.getMember, t, s.Members[j].Id).Tname.ArrayDim && s.Members[j].Tname.MapDim == fn(syntax.StructType.getMember, t, s.Members[j].Id).Tname.MapDim && (s.Members[j].Tname == fn(syntax.StructType.getMember, t, s.Members[j].Id).Tname || isnil(fn(syntax.Type.IsAssignableFrom, fn(syntax.TypeLookup.Get, typeTable, s.Members[j].Tname), fn(syntax.TypeLookup.Get, typeTable, fn(syntax.StructType.getMember, t, s.Members[j].Id).Tname), typeTable))))
+
+// ---------------------------------------------------------------- C17 JSON validation / filtering primitives
+
+//@ func syntax.isNullBytes property C17
+//@   nopanic
+//@   pure
+//@   opt deterministic on
+//@   ensures result == (len(data) == 4 && data[0] == 'n' && data[1] == 'u' && data[2] == 'l' && data[3] == 'l')
+
+//@ func syntax.sameSlice property C17
+//@   nopanic
+//@   pure
+//@   ensures result == (len(a) == len(b) && (len(a) == 0 || (base(a) == base(b) && off(a) == off(b))))
+
+//@ iface syntax.Type.FilterJson property C17
+//@   opt deterministic on
+
+// null is accepted by every validator and passed through unchanged (same slice) by every filter.
+//@ func syntax.ArrayType.IsValidJson property C17
+//@   ensures @null old(len(data) == 4 && data[0] == 'n' && data[1] == 'u' && data[2] == 'l' && data[3] == 'l') ==> isnil(result)
+//@ func syntax.TypedMapType.IsValidJson property C17
+//@   ensures @null old(len(data) == 4 && data[0] == 'n' && data[1] == 'u' && data[2] == 'l' && data[3] == 'l') ==> isnil(result)
+//@ func syntax.StructType.IsValidJson property C17
+//@   ensures @null old(len(data) == 4 && data[0] == 'n' && data[1] == 'u' && data[2] == 'l' && data[3] == 'l') ==> isnil(result)
+//@ func syntax.BuiltinType.IsValidJson property C17
+//@   ensures @null old(len(data) == 4 && data[0] == 'n' && data[1] == 'u' && data[2] == 'l' && data[3] == 'l') ==> isnil(result)
+//@ func syntax.UserType.IsValidJson property C17
+//@   ensures @null old(len(data) == 4 && data[0] == 'n' && data[1] == 'u' && data[2] == 'l' && data[3] == 'l') ==> isnil(result)
+
+//@ func syntax.ArrayType.FilterJson property C17
+//@   ensures @null old(len(data) == 4 && data[0] == 'n' && data[1] == 'u' && data[2] == 'l' && data[3] == 'l') ==> result.0 == data && !result.1 && isnil(result.2)
+// fast path: when no element's filter returned a different slice the IDENTICAL input slice is returned
+//@   ensures @fastpath old(s.Dim) == 1 && len(arr) > 0 && (forall j :: 0 <= j && j < len(arr) ==> (len(fn(syntax.Type.FilterJson, s.Elem, arr[j], lookup).0) == len(arr[j]) && (len(arr[j]) == 0 || (base(fn(syntax.Type.FilterJson, s.Elem, arr[j], lookup).0) == base(arr[j]) && off(fn(syntax.Type.FilterJson, s.Elem, arr[j], lookup).0) == off(arr[j]))))) ==> result.0 == data
+//@   loop 1 invariant 0 <= iter && iter <= len(arr) && s.Dim == 1
+//@   loop 1 invariant !different <==> (forall j :: 0 <= j && j < iter ==> (len(fn(syntax.Type.FilterJson, s.Elem, arr[j], lookup).0) == len(arr[j]) && (len(arr[j]) == 0 || (base(fn(syntax.Type.FilterJson, s.Elem, arr[j], lookup).0) == base(arr[j]) && off(fn(syntax.Type.FilterJson, s.Elem, arr[j], lookup).0) == off(arr[j])))))
+//@ func syntax.TypedMapType.FilterJson property C17
+//@   ensures @null old(len(data) == 4 && data[0] == 'n' && data[1] == 'u' && data[2] == 'l' && data[3] == 'l') ==> result.0 == data && !result.1 && isnil(result.2)
+//@ func syntax.StructType.FilterJson property C17
+//@   ensures @null old(len(data) == 4 && data[0] == 'n' && data[1] == 'u' && data[2] == 'l' && data[3] == 'l') ==> result.0 == data && !result.1 && isnil(result.2)
+//@ func syntax.BuiltinType.FilterJson property C17
+//@   ensures @null old(len(data) == 4 && data[0] == 'n' && data[1] == 'u' && data[2] == 'l' && data[3] == 'l') ==> result.0 == data && !result.1 && isnil(result.2)
+//@ func syntax.UserType.FilterJson property C17
+//@   ensures @null old(len(data) == 4 && data[0] == 'n' && data[1] == 'u' && data[2] == 'l' && data[3] == 'l') ==> result.0 == data && !result.1 && isnil(result.2)
